@@ -695,12 +695,26 @@ package loadbalancer
 //@      : (dyntype(s, *WeightedRoundRobinStrategy) ? asptr(s, *WeightedRoundRobinStrategy).backends[i].backend
 //@      : (dyntype(s, *IPHashStrategy) ? asptr(s, *IPHashStrategy).backends[i] : asptr(s, *IPHashConsistentStrategy).backends[i])))
 //@ pred knownStrategy(name string) := name == "round_robin" || name == "least_connections" || name == "weighted_round_robin" || name == "ip_hash" || name == "ip_hash_consistent"
+// lb.mutex guards which strategy object is current. Under every interleaving (mon mode: the guarded field is
+// unknown at each acquisition) a strategy switch must install a strategy holding exactly the backends that
+// the strategy current AT THE WRITE-LOCK ACQUISITION held - otherwise a concurrent add/remove is lost.
+//@ monitor LoadBalancer.mutex lb
+//@   guards strategy
+//@   inv has_strategy: lb.strategy != nil && ptr(lb.strategy) != 0
+//@   rely pool_well_formed: poolOK(lb)
 //@ func (*LoadBalancer).SetStrategy
 //@   props C11 C12
+//@   mode seq, mon
+//@   ensures acq: switch_is_atomic_with_respect_to_other_admin_operations: result == nil ==> sLen(lb.strategy) == old(sLen(lb.strategy))
+//@             && (dyntype(lb.strategy, *RoundRobinStrategy) ==> forall i int :: {asptr(lb.strategy, *RoundRobinStrategy).backends[i]} 0 <= i && i < sLen(lb.strategy) ==> asptr(lb.strategy, *RoundRobinStrategy).backends[i] == old(sAt(lb.strategy, i)))
+//@             && (dyntype(lb.strategy, *LeastConnectionsStrategy) ==> forall i int :: {asptr(lb.strategy, *LeastConnectionsStrategy).backends[i]} 0 <= i && i < sLen(lb.strategy) ==> asptr(lb.strategy, *LeastConnectionsStrategy).backends[i] == old(sAt(lb.strategy, i)))
+//@             && (dyntype(lb.strategy, *WeightedRoundRobinStrategy) ==> forall i int :: {asptr(lb.strategy, *WeightedRoundRobinStrategy).backends[i]} 0 <= i && i < sLen(lb.strategy) ==> asptr(lb.strategy, *WeightedRoundRobinStrategy).backends[i].backend == old(sAt(lb.strategy, i)))
+//@             && (dyntype(lb.strategy, *IPHashStrategy) ==> forall i int :: {asptr(lb.strategy, *IPHashStrategy).backends[i]} 0 <= i && i < sLen(lb.strategy) ==> asptr(lb.strategy, *IPHashStrategy).backends[i] == old(sAt(lb.strategy, i)))
+//@             && (dyntype(lb.strategy, *IPHashConsistentStrategy) ==> forall i int :: {asptr(lb.strategy, *IPHashConsistentStrategy).backends[i]} 0 <= i && i < sLen(lb.strategy) ==> asptr(lb.strategy, *IPHashConsistentStrategy).backends[i] == old(sAt(lb.strategy, i)))
 //@   requires adminOK(lb) && poolNonNil(lb)
 //@   ensures error_iff_unknown_strategy: result == nil <==> knownStrategy(name)
-//@   ensures unknown_name_changes_nothing: result != nil ==> lb.strategy == old(lb.strategy) && lb.config.LoadBalancer.Strategy == old(lb.config.LoadBalancer.Strategy)
-//@   ensures switch_keeps_the_same_backends_in_order: result == nil ==> sLen(lb.strategy) == old(sLen(lb.strategy))
+//@   ensures seq: unknown_name_changes_nothing: result != nil ==> lb.strategy == old(lb.strategy) && lb.config.LoadBalancer.Strategy == old(lb.config.LoadBalancer.Strategy)
+//@   ensures seq: switch_keeps_the_same_backends_in_order: result == nil ==> sLen(lb.strategy) == old(sLen(lb.strategy))
 //@             && (forall i int :: {sAt(lb.strategy, i)} 0 <= i && i < sLen(lb.strategy) ==> sAt(lb.strategy, i) == old(sAt(lb.strategy, i)))
 //@   ensures name_recorded: result == nil ==> lb.config.LoadBalancer.Strategy == name
 //@   modifies lb.strategy, lb.config.LoadBalancer.Strategy, RoundRobinStrategy.backends, LeastConnectionsStrategy.backends, WeightedRoundRobinStrategy.backends, IPHashStrategy.backends,
